@@ -105,12 +105,23 @@ type declCell struct {
 	Name  string // parameter name used in the spec
 }
 
+// cellMethod: the method of the operation under test - PUT when sibling operations are part of the cell (so that
+// one sibling is read before it and one after), GET otherwise.
+func cellMethod(cells []declCell) string {
+	for _, c := range cells {
+		if c.Level == "sibling" || c.Level == "siblingRef" {
+			return "PUT"
+		}
+	}
+	return "GET"
+}
+
 func schemaOfType(t string) aspec.Schema { return aspec.Schema{K: t} }
 
 // cellOp renders one declaration cell as an operation (plus the components it needs).
 func cellOp(a *aspec.ASpec, idx int, cells []declCell) {
 	t := []aspec.Seg{{K: "lit", S: fmt.Sprintf("d%d", idx)}}
-	op := simpleOp("GET", t)
+	op := simpleOp(cellMethod(cells), t)
 	pi := aspec.PathItem{Template: t}
 	var siblings []aspec.Op
 	for ci, cell := range cells {
@@ -144,9 +155,20 @@ func cellOp(a *aspec.ASpec, idx int, cells []declCell) {
 			// (in, name) differently - that must stay that operation's business
 			pi.Params = append(pi.Params, p)
 			other := aspec.Param{In: d.In, Name: cell.Name, Req: !d.Req, Schema: aspec.Schema{K: map[bool]string{true: "int32", false: "string"}[d.Type == "string"]}}
-			for _, m := range []string{"DELETE", "POST"} { // one declared before GET, one after (operations are read in a fixed method order)
+			for _, m := range []string{"GET", "TRACE"} { // one read before the operation under test (PUT), one after (operations are read in a fixed method order)
 				sib := simpleOp(m, t)
 				sib.Params = []aspec.Param{other}
+				siblings = append(siblings, sib)
+			}
+		case "siblingRef":
+			// the operation refers to a component parameter; other operations of the same path item refer to ANOTHER
+			// component parameter of the same (in, name), declared differently
+			op.Params = append(op.Params, p)
+			oname := fmt.Sprintf("Other%dx%d", idx, ci)
+			a.Parameters = append(a.Parameters, aspec.NamedParam{Name: oname, Param: aspec.Param{In: d.In, Name: cell.Name, Req: !d.Req, Schema: aspec.Schema{K: map[bool]string{true: "int32", false: "string"}[d.Type == "string"]}}})
+			for _, m := range []string{"GET", "TRACE"} {
+				sib := simpleOp(m, t)
+				sib.Params = []aspec.Param{{Ref: oname, In: d.In, Name: cell.Name}}
 				siblings = append(siblings, sib)
 			}
 		default:
@@ -292,7 +314,10 @@ func checkC04(c *core.Check) {
 	var cells [][]declCell
 	for _, d := range base {
 		for _, via := range []string{"inline", "schemaRef", "paramRef"} {
-			for _, level := range []string{"op", "item", "overridden", "sibling"} {
+			for _, level := range []string{"op", "item", "overridden", "sibling", "siblingRef"} {
+				if level == "siblingRef" && via != "paramRef" {
+					continue
+				}
 				if !thorough && via != "inline" && level != "op" && rng.Intn(2) == 0 {
 					continue
 				}
@@ -400,7 +425,7 @@ func checkC04(c *core.Check) {
 				}
 				caseN++
 				cid := fmt.Sprintf("c%d", caseN)
-				rc := driver.ReqCase{ID: cid, Method: "GET", Path: fmt.Sprintf("/d%d", ci), Headers: map[string][]string{}, Script: driver.Script{Parse: true, Reparse: true}}
+				rc := driver.ReqCase{ID: cid, Method: cellMethod(cells[ci]), Path: fmt.Sprintf("/d%d", ci), Headers: map[string][]string{}, Script: driver.Script{Parse: true, Reparse: true}}
 				q := url.Values{}
 				var sup []supEntry
 				for di, d := range ds {
